@@ -38,6 +38,12 @@ What is modelled (the code AS IT IS, defects included):
   `RunCode` on a used VM - before `resetForNewCode` clears `halt` again (then nothing is left
   to stop the run).
 
+* what the host reads from the VM BY NAME between invocations (`vm.Get`, `vm.GlobalNames`, the
+  function a `Call` fetches): code objects lay their globals out differently (`Lay`), the
+  wrappers hold symbol table and `Globals` array in slot order (`GSt`), `get` scans the ACTIVE
+  table - see the section "Global names" below; `LInv` adds the layout and the names looked up
+  before and after an invocation to `Inv`.
+
 A history is a list of invocations.  Contexts and code objects are named by natural numbers;
 the context / the code object created for the `k`-th invocation (0-based) has id `k`.
 `pre` names contexts cancelled before the invocation starts (ANY context: of an earlier
@@ -504,6 +510,320 @@ def sigOutcome : Sig → Outcome
   | .err o => o
   | .pan o => o
 
+/-! ### Global names: what the host reads from a reused VM BY NAME
+
+`vm.Get(name)` and `vm.GlobalNames()` answer from the ACTIVE code: `Get` scans the symbol table
+of `vm.activeCode` (slot order, bounded by the length of its `Globals` array) for the name and
+returns `Globals[slot]`.  `risor.Call` is `RunCode` + `Get(name)` + `Call`, and hosts that reuse a
+VM do the same by hand.  Code objects lay their globals out differently (the order of the names
+the host supplies, how many definitions precede a name, the order of the definitions), so ONE
+name lives in DIFFERENT slots of the code objects a reused VM runs one after the other.
+
+The layer below models the storage these look-ups read, as it is in vm/vm.go and vm/code.go:
+the wrapper (`Wrap`: symbol table zipped with the `Globals` array, in slot order) of the REPL
+main code (`vm.loadedCode[main]`, kept and re-based by `reloadCode` on every `Run`) and of the
+code object handed to the last `RunCode` (`risor.Call`'s / the harness's definitions for a `Call`
+on a VM without code included), which of the two is active, `resetForNewCode` forgetting both,
+`loadRootCode` filling the host's values in by name, and the definitions of the script storing
+their values in the slot the compiler gave the name.  It is driven by the run-state model
+(`St`): whether the reset happens, whether `Call` has to load definitions, whether the run was
+stopped before it executed its definitions (`cut`). -/
+
+/-- a global NAME (the harness maps the strings) -/
+inductive GName where
+  | host (i : Nat)   -- the i-th name of the host's globals, sorted as the compiler sorts them (acc, boom, hook, hostmod, len, modhook, p)
+  | extra            -- `aaa`: a global name some code objects are compiled with (it sorts before all others) although the host supplies no such global
+  | act (s : Nat)    -- `act` (s = 0: code objects handed to RunCode / Call's definitions) or `act_k` (s = k+1: REPL snippet of invocation k)
+  | over (s : Nat)   -- `over` / `over_k`
+  | fill (i : Nat)   -- `f<i>`: a function defined before act/over
+  | pad (i : Nat)    -- `g<i>`: a variable defined before `who`
+  | who              -- `who`: a variable holding the identity of the code object
+  | nosuch           -- a name no code object defines
+  deriving DecidableEq, Repr, Inhabited
+
+/-- which root code object a wrapper (and the functions made from its constants) belongs to -/
+inductive Owner where
+  | main             -- the REPL main code `Run` executes
+  | code (j : Nat)   -- the code object compiled for RunCode invocation `j`
+  | setup            -- the definitions loaded for a `Call` on a VM without code
+  deriving DecidableEq, Repr, Inhabited
+
+/-- what a slot of a `Globals` array holds -/
+inductive GVal where
+  | unbound                       -- Go nil: the definition has not been executed
+  | host (i : Nat)                -- the object the host supplied under its i-th name
+  | fn (n : GName) (o : Owner)    -- the function named `n` of code object `o`
+  | int (v : Nat)
+  deriving DecidableEq, Repr, Inhabited
+
+/-- the answer of `vm.Get` -/
+inductive Got where
+  | val (v : GVal) | notFound | noCode
+  deriving DecidableEq, Repr, Inhabited
+
+/-- how a code object lays out its globals: the global names it was compiled with (the compiler
+    sorts them; `hset` bit 0: the additional name `aaa`, which moves every other name up one
+    slot; bit 1: without `modhook`; bit 2: without `hostmod`), then the functions (hoisted by
+    the compiler, in source order: `fills` fillers, then over/act in either order), then the
+    variables (`pads` of them, then `who`) -/
+structure Lay where
+  hset : Nat := 0
+  fills : Nat := 0
+  swap : Bool := false
+  pads : Nat := 0
+  deriving DecidableEq, Repr, Inhabited
+
+def nHost : Nat := 7
+
+def hostTbl (m : Nat) : List GName :=
+  (if m % 2 = 1 then [.extra] else []) ++
+    ((List.range nHost).filter
+      (fun i => !((i == 5 && (m / 2) % 2 == 1) || (i == 3 && (m / 4) % 2 == 1)))).map .host
+
+/-- the names a code object with layout `l` defines itself, in slot order -/
+def defNames (l : Lay) : List GName :=
+  (List.range l.fills).map .fill ++ (if l.swap then [.act 0, .over 0] else [.over 0, .act 0]) ++
+    (List.range l.pads).map .pad ++ [.who]
+
+/-- the symbol table of a code object with layout `l` -/
+def codeTbl (l : Lay) : List GName := hostTbl l.hset ++ defNames l
+
+/-- the names REPL snippet `k` adds to the main code's symbol table -/
+def snippetNames (k : Nat) : List GName := [.over (k + 1), .act (k + 1)]
+
+/-- symbol table zipped with the `Globals` array: slot `i` ↦ (its name, its value) -/
+abbrev Slots := List (GName × GVal)
+
+structure Wrap where
+  owner : Owner
+  slots : Slots
+  deriving DecidableEq, Repr, Inhabited
+
+/-- `Get`'s loop: the first slot whose symbol has the name -/
+def scan : Slots → GName → Got
+  | [], _ => .notFound
+  | (m, v) :: rest, n => if m = n then .val v else scan rest n
+
+/-- `StoreGlobal idx`: the compiler resolved the name to the index of its symbol -/
+def store : Slots → GName → GVal → Slots
+  | [], _, _ => []
+  | (m, v) :: rest, n, x => if m = n then (m, x) :: rest else (m, v) :: store rest n x
+
+/-- `loadRootCode`: a fresh `Globals` array; the host's objects are filled in by NAME -/
+def initVal : GName → GVal
+  | .host i => .host i
+  | _ => .unbound
+
+def loadRoot (o : Owner) (tbl : List GName) : Wrap := ⟨o, tbl.map (fun n => (n, initVal n))⟩
+
+def whoVal : Owner → Nat
+  | .code j => 100 + j
+  | .setup => 99
+  | .main => 0
+
+/-- the value the definition of `n` in code object `o` stores -/
+def defVal (o : Owner) : GName → GVal
+  | .act s => .fn (.act s) o
+  | .over s => .fn (.over s) o
+  | .fill i => .fn (.fill i) o
+  | .pad i => .int (10 + i)
+  | .who => .int (whoVal o)
+  | .host i => .host i
+  | .extra => .unbound
+  | .nosuch => .unbound
+
+/-- the top-level definitions `ns` of the active code are executed -/
+def execDefs (w : Wrap) (ns : List GName) : Wrap :=
+  { w with slots := ns.foldl (fun sl n => store sl n (defVal w.owner n)) w.slots }
+
+/-- `reloadCode`: the main code is wrapped again (its table may have grown - symbols are only
+    ever appended) and the old `Globals` are copied over the new array, slot by slot -/
+def reload (old : Wrap) (tbl : List GName) : Wrap :=
+  { old with slots := old.slots ++ (tbl.drop old.slots.length).map (fun n => (n, initVal n)) }
+
+/-- the storage `Get` reads, per VM, plus the symbol table of the REPL compiler (world) -/
+structure GSt where
+  mainTbl : List GName := hostTbl 0   -- world: symbol table of the main code the host's REPL compiler grows
+  mainW : Option Wrap := none         -- `vm.loadedCode[main]`
+  codeW : Option Wrap := none         -- the wrapper of the root code object loaded by the last RunCode
+  active : Option Bool := none        -- `vm.activeCode`: none | main (`true`) | the RunCode object (`false`)
+  cur : Nat := 0                      -- host bookkeeping: suffix of the functions of the code run last (`act`: 0, `act_k`: k+1)
+  deriving DecidableEq, Repr, Inhabited
+
+/-- `resetForNewCode`: `loadedCode = {}`, `activeCode = nil` -/
+def greset (g : GSt) : GSt := { g with mainW := none, codeW := none, active := none }
+
+/-- `RunCode`'s look-up in `vm.loadedCode`: a wrapper that exists is reused as it is -/
+def loadCode (g : GSt) (o : Owner) (lay : Lay) : Wrap :=
+  match g.codeW with
+  | some w => if w.owner = o then w else loadRoot o (codeTbl lay)
+  | none => loadRoot o (codeTbl lay)
+
+/-- the definitions for a `Call` on a VM without code: `RunCode(Background, defs)` with a newly
+    compiled code object; `p` = the run-state just before -/
+def gsetup (g : GSt) (p : St) (lay : Lay) : GSt :=
+  let g := if 0 < p.startCount then greset g else g
+  { g with codeW := some (execDefs (loadRoot .setup (codeTbl lay)) (defNames lay)),
+           active := some false, cur := 0 }
+
+/-- one invocation, seen from the storage `Get` reads (`s` = run-state before it) -/
+def ginvoke (g : GSt) (s : St) (k : Nat) (inv : Inv) (lay : Lay) : GSt :=
+  let p := preState s k inv
+  -- the host compiles the REPL snippet into the main code
+  let g := if inv.kind = .run then { g with mainTbl := g.mainTbl ++ snippetNames k } else g
+  let g := if inv.kind = .call ∧ p.hasCode = false then gsetup g p lay else g
+  let q := prep s k inv
+  if q.running then g
+  else match inv.kind with
+    | .call => g
+    | .runCode =>
+      let g := if 0 < q.startCount then greset g else g
+      let w := loadCode g (.code (codeOf k inv)) lay
+      let w := if cut s k inv then w else execDefs w (defNames lay)
+      { g with codeW := some w, active := some false, cur := 0 }
+    | .run =>
+      let w := match g.mainW with
+        | some old => reload old g.mainTbl
+        | none => loadRoot .main g.mainTbl
+      let w := if cut s k inv then w else execDefs w (snippetNames k)
+      { g with mainW := some w, active := some true, cur := k + 1 }
+
+def activeWrap (g : GSt) : Option Wrap :=
+  match g.active with
+  | none => none
+  | some true => g.mainW
+  | some false => g.codeW
+
+/-- **Impl** `vm.Get(name)`: reads, changes nothing -/
+def get (g : GSt) (n : GName) : Got :=
+  match activeWrap g with
+  | none => .noCode
+  | some w => scan w.slots n
+
+/-- `vm.GlobalNames()` -/
+def globalNames (g : GSt) : List GName :=
+  match activeWrap g with
+  | none => []
+  | some w => w.slots.map (·.1)
+
+/-- the name of the function a `Call` fetches with `Get` -/
+def callTarget (g : GSt) : GName := .act g.cur
+
+/-- `Get` on a freshly wrapped code object with layout `lay` whose definitions have (`bound`)
+    or have not been executed -/
+def codeGet (lay : Lay) (o : Owner) (bound : Bool) (n : GName) : Got :=
+  if n ∈ codeTbl lay then
+    .val (if bound && decide (n ∈ defNames lay) then defVal o n else initVal n)
+  else .notFound
+
+/-- `Get` on a fresh VM whose main code consists of REPL snippet `k` alone -/
+def snippetGet (k : Nat) (bound : Bool) (n : GName) : Got :=
+  if n ∈ hostTbl 0 then .val (initVal n)
+  else if n ∈ snippetNames k then .val (if bound then defVal .main n else .unbound)
+  else .notFound
+
+/-- the name is not one that ANOTHER REPL snippet defines (the REPL keeps the globals of earlier
+    snippets by design: the property says nothing about them) -/
+def ownName (k : Nat) : GName → Bool
+  | .act (j + 1) => j == k
+  | .over (j + 1) => j == k
+  | _ => true
+
+/-- **Spec** of a look-up right after invocation `k`: what the name resolves to after the same
+    invocation on a FRESH VM (same code object contents, context in the same state).  `none`:
+    the property demands nothing by itself - a `Call` of a function of the code an earlier
+    invocation loaded (the look-ups must then read what they read before the Call,
+    `call_keeps_globals`), the names of earlier REPL snippets after a `Run`. -/
+def specGet (s : St) (k : Nat) (inv : Inv) (lay : Lay) (n : GName) : Option Got :=
+  match inv.kind with
+  | .runCode => some (codeGet lay (.code (codeOf k inv)) (!dead s k inv) n)
+  | .call => if (preState s k inv).hasCode then none else some (codeGet lay .setup true n)
+  | .run => if ownName k n then some (snippetGet k (!dead s k inv) n) else none
+
+/-- `GlobalNames()` after the same invocation on a fresh VM (`none` as for `specGet`; the REPL's
+    table holds the names of all snippets by design) -/
+def specNames (s : St) (k : Nat) (inv : Inv) (lay : Lay) : Option (List GName) :=
+  match inv.kind with
+  | .runCode => some (codeTbl lay)
+  | .call => if (preState s k inv).hasCode then none else some (codeTbl lay)
+  | .run => none
+
+/-- an invocation with the layout of the code object compiled for it (RunCode: the object it is
+    handed; Call: the definitions loaded when the VM has no code) and the names the host looks up
+    before and after it -/
+structure LInv where
+  inv : Inv
+  lay : Lay := {}
+  pre : List GName := []
+  post : List GName := []
+  deriving DecidableEq, Repr, Inhabited
+
+/-- what the look-ups of one invocation return: before it, after it (with the Spec), and the
+    answer of `GlobalNames()` after it -/
+structure Looked where
+  pre : List Got
+  post : List (Got × Option Got)
+  names : List GName
+  deriving DecidableEq, Repr, Inhabited
+
+def looked (g : GSt) (s : St) (k : Nat) (x : LInv) : Looked :=
+  let g' := ginvoke g s k x.inv x.lay
+  { pre := x.pre.map (get g),
+    post := x.post.map (fun n => (get g' n, specGet s k x.inv x.lay n)),
+    names := globalNames g' }
+
+/-- run a history with look-ups on the pair (run-state, name storage) -/
+def lrunFrom (s : St) (g : GSt) (k : Nat) : List LInv → List Looked
+  | [] => []
+  | x :: rest =>
+    looked g s k x :: lrunFrom (invoke s k x.inv).1 (ginvoke g s k x.inv x.lay) (k + 1) rest
+
+def lrun (h : List LInv) : List Looked := lrunFrom (fresh 0) {} 0 h
+
+/-- (Impl, Spec) of every look-up made after an invocation of the history -/
+def lookPairs (h : List LInv) : List (Got × Option Got) := (lrun h).flatMap (·.post)
+
+/-! #### The variant the property forbids: a per-VM cache name ↦ slot that `Get` fills and trusts
+whenever the slot is within the active code's `Globals`, dropped when `Run` reloads the main code
+but not when `RunCode` switches the VM to another code object (kept as a contrast: Props proves
+that it is not independent of the VM's history, `cachedGet_depends_on_history`). -/
+
+def slotOf : Slots → GName → Option Nat
+  | [], _ => none
+  | (m, _) :: rest, n => if m = n then some 0 else (slotOf rest n).map (· + 1)
+
+/-- `Get` with the slot cache: (new cache, answer) -/
+def getCached (cache : List (GName × Nat)) (g : GSt) (n : GName) : List (GName × Nat) × Got :=
+  match activeWrap g with
+  | none => (cache, .noCode)
+  | some w =>
+    match cache.lookup n with
+    | some i =>
+      if i < w.slots.length then (cache, .val ((w.slots.getD i (n, .unbound)).2))
+      else (match slotOf w.slots n with
+            | some j => ((n, j) :: cache, .val ((w.slots.getD j (n, .unbound)).2))
+            | none => (cache, .notFound))
+    | none =>
+      match slotOf w.slots n with
+      | some j => ((n, j) :: cache, .val ((w.slots.getD j (n, .unbound)).2))
+      | none => (cache, .notFound)
+
+def lookCached (cache : List (GName × Nat)) (g : GSt) : List GName → List (GName × Nat) × List Got
+  | [] => (cache, [])
+  | n :: ns =>
+    let r := getCached cache g n
+    let r' := lookCached r.1 g ns
+    (r'.1, r.2 :: r'.2)
+
+/-- the answers of the look-ups made after each invocation, with the cache -/
+def lrunCachedFrom (cache : List (GName × Nat)) (s : St) (g : GSt) (k : Nat) : List LInv → List (List Got)
+  | [] => []
+  | x :: rest =>
+    let g' := ginvoke g s k x.inv x.lay
+    let cache := if x.inv.kind = .run then [] else cache
+    let r := lookCached cache g' x.post
+    r.2 :: lrunCachedFrom r.1 (invoke s k x.inv).1 g' (k + 1) rest
+
 /-! ### What the model assumes about the text of vm/vm.go (tied in Ties.lean to the facts the
 extractor regenerates from the source on every run) -/
 
@@ -516,5 +836,22 @@ def expectResetAssigns : List String :=
 def expectResetCondition : String := "resetState && vm.startCount > 1"
 def expectMaxFrameDepth : Nat := 1024
 def expectMaxStackDepth : Nat := 1024
+/-- `Get` and `GlobalNames` assign nothing: a look-up leaves no trace on the VM (model: `get` is a
+    function of the state) -/
+def expectGetAssigns : List String := []
+/-- the only field of the VM `Get` / `GlobalNames` read is the active code (model: `activeWrap`) -/
+def expectGetReads : List String := ["activeCode"]
+/-- every field of `VirtualMachine` (sorted): the storage that can survive an invocation.
+    Accounted for: ip/sp/fp/halt/startCount/running - `St`; stack/frames/tmp - `sp`, `fp` (what
+    lies above the pointers is dead); activeFrame/activeCode/main/loadedCode - `hasCode`,
+    `loaded`, `cur`, `GSt`; modules/importer - `mods`, `fmod`, `icache`; importing - empty between
+    invocations (pushed and popped around a module's code by `importModule`); inputGlobals/
+    globals - constant after construction (the harness passes no options to RunCode);
+    concAllowed/os - options, constant after construction; runMutex/cloneMutex - locks.
+    A field that is not in this list is storage the model does not know of. -/
+def expectVmFields : List String :=
+  ["activeCode", "activeFrame", "cloneMutex", "concAllowed", "fp", "frames", "globals", "halt",
+   "importer", "importing", "inputGlobals", "ip", "loadedCode", "main", "modules", "os",
+   "runMutex", "running", "sp", "stack", "startCount", "tmp"]
 
 end Risor.C07
